@@ -842,7 +842,8 @@ def ac3(model):
     f = model.func('parser.Parser.remove_pure_action_lines')
     want = {'is_blank': False, 'can_start': True, 'can_end': True}
     seen = set()
-    for n in ast.walk(f.node):
+    # the flags are computed in the function itself, in a nested helper, or in a helper of the module
+    for n in ast.walk(f.mod.tree):
         if isinstance(n, ast.Assign) and isinstance(n.targets[0], ast.Attribute) and n.targets[0].attr in want \
                 and not isinstance(n.value, ast.Constant) \
                 and not (isinstance(n.value, ast.Name) and getattr(n, '_fn', None) is not None
